@@ -124,8 +124,7 @@ func (b *combineBuffer) addPoint(p edge.FieldsTagsTimeSetter) error {
 			return err
 		}
 		b.time = t
-		b.points = b.points[0:1]
-		b.points[0] = p
+		b.points = append(b.points[0:0], p)
 	}
 	return nil
 }
